@@ -39,6 +39,8 @@ Inductive wop :=
 | WReapFault (p : nat) (c : chan) (eio : bool) (* the same, but the drain's read on channel c fails: EIO (true)
                                                  raises out of readfd, EBADF (false) is turned into b'' by readfd *)
 | WReopen                                     (* SIGUSR2: group.reopenlogs() for every group *)
+| WMoveAway (p : nat)                         (* an external logrotate renames p's log files; the log as a whole
+                                                 (renamed files + configured path) is unchanged *)
 | WClear (p : nat)                            (* clearProcessLogs: Subprocess.removelogs() *)
 | WOpen | WClose (fd : nat).                  (* unrelated descriptors *)
 
@@ -224,6 +226,7 @@ Section World.
     | WReap p => reap None p
     | WReapFault p c eio => reap (Some (c, eio)) p
     | WReopen => Some w
+    | WMoveAway _ => Some w
     | WClear p =>
       (* dispatcher.removelogs() on every dispatcher p has now: log files deleted and
          recreated empty, capture buffers cleared *)
